@@ -25,7 +25,7 @@ META = {
                 "csr.bus.Decoder.elaborate", "memory.MemoryMap.add_window", "memory.MemoryMap.window_patterns",
                 "memory.MemoryMap.windows", "memory.MemoryMap._compute_addr_range"],
     "also": 'a refused add() (out-of-bounds address; a second interface carrying the memory map of an accepted subordinate) left attached as an arbitrary bus; decoders elaborated once after k adds and extended afterwards; the ranges returned by add() are the oracle and windows() must agree; 12/16-bit address decoders; a single window filling the whole address space, a lone window smaller than it; a subordinate whose memory map object is also a window of a second decoder; flat-vs-tree bounded miter',
-    "bounds": "addr width 3-7 (thorough 3-9), data width 8/16, 0-4 (thorough 0-6) subordinate windows of width "
+    "bounds": "addr width 3-7 (thorough 3-9) plus 12, 16, 58, 60, 64 bit decoders and one with 19 subordinates, data width 8/16, 0-4 (thorough 0-6) subordinate windows of width "
               "1..aw-1, implicit / explicit aligned / align_to placement, decoder alignment 0-3 including alignment "
               "larger than a window (padded windows), named and anonymous, seeded add orders, one level of nesting",
     "outside": "inside the alignment padding of a window (addresses the window's own bus cannot express) only "
